@@ -176,12 +176,22 @@ def c13(chk):
         maxb = rng.choice([1000, 3000, 6000])
         cap_binds = rng.random() < 0.15
         maxout = rng.choice([1, 2]) if cap_binds else 100
+        # the first few scenarios are fixed in kind: a small cap, some High peers without any address and some with one
+        # (all up): the address-less ones are not due and must not stand in the way of the others
+        forced = i < (6 if quick else 40)
+        if forced:
+            k = rng.randrange(3, 6)
+            cap_binds, maxout = True, rng.choice([1, 1, 2])
+            n_less = rng.randrange(1, k)
+        # in a third of the scenarios the dialing node has a connection limit which unknown peers fill (or which is 0):
+        # the limit governs inbound admission only, background dialing goes on as without it (Dialer.v has no limit)
+        limit = rng.choice([0, 1, 2]) if rng.random() < 0.35 else None
         cmds = ["seed=%d delay=%d" % (rng.randrange(1 << 30), rng.choice([200, 1000, 5000])),
-                "node 0 ctick=%d ctimeout=400 backoff=%d maxbackoff=%d maxout=%d idle=600000" % (P, step, maxb, maxout)]
+                "node 0 ctick=%d ctimeout=400 backoff=%d maxbackoff=%d maxout=%d idle=600000%s" % (P, step, maxb, maxout, " maxconn=%d" % limit if limit is not None else "")]
         known_m = []
         up0 = {}
         for j in range(1, k + 1):
-            up0[j] = rng.random() < 0.75
+            up0[j] = rng.random() < 0.75 or forced
             cmds.append("node %d key=%d idle=600000" % (j, 100 + j))
         for j in range(1, k + 1):
             if not up0[j]:
@@ -199,12 +209,16 @@ def c13(chk):
                 else:
                     o = rng.randrange(1, k + 1)
                     addrs.append(("%d" % o, o if o == j else 200 + o))  # another peer's address: identity mismatch
+            if forced:
+                aff, addrs = "high", ([] if j <= n_less else [("%d" % j, j)])
             cmds.append("known 0 %d %s addr=%s" % (j, aff, ",".join(a for a, _ in addrs) or "none"))
             known_m.append("%d:%s:%s" % (j, aff, ",".join(str(m) for _, m in addrs)))
-        if rng.random() < 0.3:
+        if rng.random() < 0.3 and not forced:
             cmds.append("known 0 0 high addr=self")
             known_m.append("0:high:0")
         cmds += ["sleep 10", "trace dial", "peers 0"]
+        for f in range(limit or 0):
+            cmds += ["node %d key=%d idle=600000" % (50 + f, 150 + f), "connect %d 0" % (50 + f)]
         avail = ["0:%d:down" % j for j in range(1, k + 1) if not up0[j]]
         up = dict(up0)
         for t in range(1, ticks):
@@ -223,7 +237,7 @@ def c13(chk):
         scen.append("simnet " + " ; ".join(cmds))
         models.append("dialer own=0 step=%d maxb=%d maxout=%d P=%d ticks=%d | %s | %s"
                       % (step, maxb, maxout, P, ticks, ";".join(known_m), " ".join(avail)))
-        metas.append(dict(k=k, ticks=ticks, cap=cap_binds, maxout=maxout, known=known_m))
+        metas.append(dict(k=k, ticks=ticks, cap=cap_binds, maxout=maxout, known=known_m, limit=limit))
     # second family: the outstanding-connection cap against connections being established for OTHER reasons.
     # k identical High peers that are always down (so counts do not depend on which of them the hash order picks),
     # E_i explicit connects to a silent address issued 100 ms before tick i (pending at the tick, gone 300 ms later)
@@ -366,6 +380,8 @@ def c13(chk):
         if not ok_case:
             continue
         chk.nontriv(sc)
+        if meta.get("limit") is not None:
+            chk.count("dialing-node-at-connection-limit:%d" % meta["limit"])
         # model comparison: per tick, the set of (peer, address)
         def norm_port(p, port):
             port = int(port)
@@ -498,8 +514,11 @@ def net_scenario(rng, nodes, ops, default_idle=False):
     """default_idle: a QuicConfig is supplied but its idle timeout is left unset on every node, so the
     transport's own default (30 s) is the idle timeout in force; quiet periods are stretched to match."""
     nn = len(nodes)
-    timing = "keepalive=5000" if default_idle else "idle=3000 keepalive=1000"
-    quiet = 36000 if default_idle else 4500
+    # idle timeout 10 s against cuts of at most 2.6 s that are healed (two failing dials under the cut): with 3 s the
+    # retransmission back-off after such a cut sometimes outlasted the idle timer (7 of 40 runs), which NetModel's
+    # "a healed cut shorter than the idle timeout loses nothing" does not describe
+    timing = "keepalive=5000" if default_idle else "idle=10000 keepalive=1000"
+    quiet = 36000 if default_idle else 13000
     def nodecmd(i, restart=False):
         name, alt, limit = nodes[i]
         c = "node %d key=%d name=n%d %s ctimeout=1000" % (i, 10 + i, name, timing)
@@ -785,6 +804,17 @@ ADV_VARIANTS = [
 ]
 
 
+def identity_header_names():
+    """Header names under which a message might try to name an identity: every short lower-case string literal of the
+    library's own sources (whatever header the library interprets is among them) and a list of usual suspects."""
+    import glob
+    names = set(["peer-id", "peerid", "peer_id", "x-peer-id", "from", "forwarded", "forwarded-for", "x-forwarded-for", "via", "origin", "identity",
+                 "authorization", "sender", "source", "on-behalf-of", "x-real-ip", "remote-peer", "remote", "user", "client-id", "originator", "proxy-for"])
+    for f in glob.glob(REPO + "/crates/anemo*/src/**/*.rs", recursive=True):
+        names |= set(re.findall(r'"([a-z][a-z0-9_-]{2,40})"', open(f, errors="replace").read()))
+    return sorted(names - {"echo-all", "id", "sleep-ms", "status", "resp-size", "resp-hdr-size", "timeout"})
+
+
 def adversary_scenarios(chk, n, tag):
     """Honest nodes 1 (victim of impersonation: identity key V) and 2 (observer), an adversary 8
     that dials node 2 and is dialed by node 2 (plain and pinned to node 1's identity)."""
@@ -807,6 +837,15 @@ def adversary_scenarios(chk, n, tag):
                 "rpc 2 1 id=probe size=10",
                 "connect 2 1", "sleep 300", "peers 2", "rpc 2 1 id=real size=10", "log 1",
                 "events 2"]
+        # messages that name another identity: node 3 (authenticated as itself) calls node 2, and node 2 calls node 3, with
+        # headers carrying node 1's PeerId under many names (the handler copies them into its answer): the handler must
+        # still see the authenticated caller and the caller the authenticated callee
+        hn = identity_header_names()
+        chunks = [hn[j:j + 40] for j in range(0, len(hn), 40)] if i == 0 else [rng.sample(hn, min(len(hn), 25))]
+        for q, ch in enumerate(chunks):
+            enc = rng.choice(["l", "l", "u"])
+            cmds += ["rpc 3 2 id=spoof%d size=5 idh=%s@1:%s" % (q, ",".join(x.encode().hex() for x in ch), enc),
+                     "rpc 2 3 id=spoofr%d size=5 idh=%s@1:%s" % (q, ",".join(x.encode().hex() for x in ch), enc)]
         scen.append("simnet " + " ; ".join(cmds))
         metas.append((label, mode))
     outs, parsed = run_scenarios(chk, scen, tag)
@@ -844,6 +883,14 @@ def adversary_scenarios(chk, n, tag):
         if dialed_ok != want_dial or conn_ok != want_conn:
             chk.disagree(sc, "[%s] adversary-as-client admitted=%s, as-server accepted=%s" % (label, dialed_ok, conn_ok),
                          "Tls.v: as-client %s, as-server %s" % (want_dial, want_conn), "simnet/adversary")
+        for c, x in zip(cmds, res):
+            if c.startswith("rpc 3 2 id=spoof") or c.startswith("rpc 2 3 id=spoofr"):
+                a, b = c.split()[1], c.split()[2]
+                chk.count("messages-naming-another-identity")
+                if not x.startswith("ok") or fields(x)["seen"] != a or fields(x)["from"] != b:
+                    chk.monitor_fail("[%s] a request of node %s to node %s whose headers name node 1's identity: the handler saw the request as coming from %s and the caller the answer as coming from %s (%s)"
+                                     % (label, a, b, fields(x).get("seen") if x.startswith("ok") else "?", fields(x).get("from") if x.startswith("ok") else "?", x[:80]), dict(case=sc, impl=o[-1200:]))
+                    break
         # the genuine node 1 still connects and is attributed correctly on both sides
         real = r["rpc 2 1 id=real size=10"][0]
         if not r["connect 2 1"][0].startswith("ok 1") or "from=1" not in real or "seen=2" not in real:
@@ -870,7 +917,12 @@ def adversary_c14(chk):
             # history: the same key was admitted before with a legitimate claim and certificate; admission of the
             # dial under test must not depend on it
             cmds += ["adv 7 k=7 names=n%d" % p, "advdial 7 1 sni=n%d" % p, "sleep 300", "advop 7 1 close", "sleep 300"]
-        cmds += ["adv 8 k=7 names=n%d" % cn, "advdial 8 1 sni=n%d" % sni, "sleep 300", "peers 1"]
+        # in half of the scenarios further certificates follow the dialer's own in its chain: somebody else's valid
+        # certificate for the listener's name (or another name); only the end entity counts (C01_chain_tail_irrelevant)
+        extra = ""
+        if chk.rng.random() < 0.5:
+            extra = " chain=%s chainnames=n%d" % (chk.rng.choice(["9", "9,5"]), chk.rng.choice([p, p, a or p, 10, 20, 30]))
+        cmds += ["adv 8 k=7 names=n%d%s" % (cn, extra), "advdial 8 1 sni=n%d" % sni, "sleep 300", "peers 1"]
         scen.append("simnet " + " ; ".join(cmds))
         metas.append((p, a, sni, cn))
     outs, parsed = run_scenarios(chk, scen, "fabric:adversary-names")
@@ -887,6 +939,8 @@ def adversary_c14(chk):
             if res[cl.index("advdial 7 1 sni=n%d" % p)] != "ok":
                 chk.monitor_fail("a dialer with an accepted name and certificate was rejected", dict(case=sc, impl=o[:600]))
         names = {p} | ({a} if a else set())
+        if " chain=" in sc:
+            chk.count("dialer-presents-a-chain")
         if got == "accepted" and (cn not in names or sni not in names):
             chk.monitor_fail("listener (names %s) admitted a dialer claiming n%d with a certificate for n%d" % (sorted(names), sni, cn), dict(case=sc, impl=o[:600]))
         if got != mo:
